@@ -280,7 +280,7 @@ def run(ctx, replay):
 
     tcfg = cfg(spec="TSpec", maxitems=0, depths=(1, 2, 3, 255, 256, 257, 300), ladders=(3, 10, 24),
                devs=open_devs, inv=None, post="Post")
-    verdicts, by_t = validate_parallel(ctx, events, tcfg, batch=2500 if not thorough else 4000, jobs=6)
+    verdicts, by_t = validate_parallel(ctx, events, tcfg, batch=4000 if thorough else max(1000, -(-len(events) // 8)), jobs=8)
 
     ok = drift = 0
     preds, classes, known_rows = {}, {}, {}
